@@ -165,6 +165,11 @@ def message_kind_table(ctx):
               f'missing {sorted(expected - set(um))}, superfluous {sorted(set(um) - expected)} - such messages do not update the cache')
 
 
+def rdo(f, cfg, at, name_expr):
+    """flow-sensitive origins of a local at a use"""
+    return ReachingDefs(cfg, f.node).origins_at(at, name_expr)
+
+
 @rule('C12.R6', min_instances=3)
 def write_paths_export(ctx):
     """data of every change/do request is datatype.export_value(...); command results are imported"""
@@ -199,6 +204,21 @@ def write_paths_export(ctx):
     ec = m.method(C, 'execCommand', inherited=False)
     ok = any(call_attr(c) == 'import_value' for c in calls_in(ec.node))
     ctx.check(ok, f'{ec.qualname}:command result imported', ec.node, 'result = datatype.import_value(data)', 'the command result is not imported', ec)
+    # ... with the RESULT type of the command, on the side where the command has one (and every return of reply data that is
+    # not imported lies on the side where it has none)
+    ecfg = CFG(ec.node, m, ec.module)
+
+    def res_type(a, want):
+        return isinstance(a, ast.Name) and any(src(o).endswith('.result') for o in origins(a, ec.node)) or (isinstance(a, ast.Attribute) and a.attr == 'result')
+    has = sides_with_fact(ecfg, lambda a, tv: tv and res_type(a, True))
+    has_not = sides_with_fact(ecfg, lambda a, tv: not tv and res_type(a, True))
+    for c in [c for c in calls_in(ec.node) if call_attr(c) == 'import_value']:
+        recv = c.func.value
+        from_result = (isinstance(recv, ast.Name) and any(src(o).endswith('.result') for o in rdo(ec, ecfg, c, recv))) or src(recv).endswith('.result')
+        ctx.check(from_result and not (set(ecfg.node_of(c)) & has_not), f'{ec.qualname}:command result imported with the result type', c,
+                  'import_value of the result datatype, where the command has one',
+                  f'`{src(c)}` does not import the reply with the result datatype of the command (or only when the command has NO result type): '
+                  'the caller receives the transport form (a scaled integer as its grid index, a blob as base64 text, an enum as a bare int)', ec)
 
 
 @rule('C12.R7', min_instances=2)
@@ -354,6 +374,32 @@ def callback_lists_have_one_update_discipline(ctx):
                 'removal of a one-shot callback (UnregisterCallback) hits the orphaned list - the callback stays registered and is invoked again', f)
     if not replacing:
         ctx.ok(f'{pc.qualname}:registered callback lists are changed in place', None, f'{len(in_place)} in-place updates, no list is replaced')
+
+
+@rule('C12.R2f', min_instances=1)
+def dispatch_walks_a_snapshot_of_the_callbacks(ctx):
+    """ProxyClient.callback() calls user code inside its loop; a callback may call register_callback / unregister_callback for
+    the very key that is being dispatched (both change the registered list in place, C12.R2e).  The loop therefore runs over
+    a SNAPSHOT of the list (list(...), tuple(...), a slice copy): over the live list an unregistration shifts the elements and
+    the next callback is skipped for this message, a registration is called twice"""
+    m = ctx.m
+    f = m.method('frappy.client.ProxyClient', 'callback', inherited=False)
+    ctx.analysed(f)
+    n = 0
+    for loop in [x for x in body_walk(f.node) if isinstance(x, ast.For) and isinstance(x.target, ast.Name)]:
+        calls = [c for c in calls_in(loop) if isinstance(c.func, ast.Name) and c.func.id == loop.target.id]
+        if not calls:
+            continue
+        n += 1
+        it = resolved(loop.iter, f.node)
+        snap = (isinstance(it, ast.Call) and dotted(it.func) in ('list', 'tuple', 'sorted')) or (isinstance(it, ast.Call) and call_attr(it) == 'copy') or \
+            (isinstance(it, ast.Subscript) and isinstance(it.slice, ast.Slice))
+        live = any('self.callbacks' in src(o) for o in (origins(loop.iter, f.node) if isinstance(loop.iter, ast.Name) else [loop.iter]))
+        ctx.check(snap or not live, f'{f.qualname}:callbacks are dispatched from a snapshot', loop, f'iterates `{src(loop.iter)}`',
+                  f'the dispatch loop runs over `{src(loop.iter)}`, the registered list itself, while `{src(calls[0])}` runs user code that may register or '
+                  'unregister callbacks for this key: after an unregistration the next callback is skipped for this message (not "exactly once per message")', f)
+    if not n:
+        raise AnchorMissing('loop calling the callbacks not found in ProxyClient.callback')
 
 
 @rule('C12.R6c', min_instances=1)
